@@ -50,6 +50,8 @@ def priv_flags():
 
 
 def hkey(side, hclass):
+    if side == "server" and hclass == "cl-and-te":
+        return "C15:server:content-length-and-transfer-encoding:framed-not-rejected"
     if hclass in HKEY:
         fam, sym = HKEY[hclass]
     elif hclass.startswith("truncated-"):
